@@ -42,7 +42,7 @@ fn info(tier: Tier) -> CheckInfo {
         id: "C16",
         level: "exploration",
         rule: format!(
-            "All streams of length 0..={} over the 8-item alphabet seq in {{1,2,3,7}} x value in {{a,b}} (every permutation of every multiset: gaps, duplicates, ties), each fed through a real Dht handle's channel to both Dht::get_mutable_most_recent (sync, on a caller thread) and AsyncDht::get_mutable_most_recent (polled by the harness). Plus, on a real node over the simulated network (E1): every assignment of one of {{nothing, (1,a), (2,a), (2,b), (3,a)}} to each of 3 replicas in every arrival order of their answers, through the real lookup and AsyncDht::get_mutable_most_recent - alone, and joining the still-active lookup of the node's own put_mutable of an older item (seq 0) after one / two of the replicas have already answered it (the own item counts as seen). Distinct = distinct (flavour, stream) / (assignment, order); every case is non-trivial except the empty ones.",
+            "All streams of length 0..={} over the 8-item alphabet seq in {{1,2,3,7}} x value in {{a,b}} (every permutation of every multiset: gaps, duplicates, ties), each fed through a real Dht handle's channel to both Dht::get_mutable_most_recent (sync, on a caller thread) and AsyncDht::get_mutable_most_recent (polled by the harness). Plus, on a real node over the simulated network (E1): every assignment of one of {{nothing, (-1,a), (0,a), (0,b), (1,a)}} to each of 3 replicas in every arrival order of their answers, through the real lookup and AsyncDht::get_mutable_most_recent - alone, and joining the still-active lookup of the node's own put_mutable of an older item (seq -2) after one / two of the replicas have already answered it (the own item counts as seen). Distinct = distinct (flavour, stream) / (assignment, order); every case is non-trivial except the empty ones.",
             max_len(tier)
         ),
         assumptions: vec![
@@ -197,9 +197,10 @@ fn nth_stream(mut n: usize, len: usize) -> Vec<usize> {
 
 /// E1 part: a real node looks the key up over 3 scripted replicas holding different versions;
 /// every assignment of a version (or nothing) to every replica in every arrival order.
-const VERSIONS: [Option<(i64, &[u8])>; 5] = [None, Some((1, b"a")), Some((2, b"a")), Some((2, b"b")), Some((3, b"a"))];
+/// (sequence numbers around zero: they are signed, and 0 is BEP44's first version)
+const VERSIONS: [Option<(i64, &[u8])>; 5] = [None, Some((-1, b"a")), Some((0, b"a")), Some((0, b"b")), Some((1, b"a"))];
 
-/// mode 0: plain; 1 / 2: the node's own put_mutable of an OLDER item (seq 0) for the same key
+/// mode 0: plain; 1 / 2: the node's own put_mutable of an OLDER item (seq -2) for the same key
 /// is in flight and one / two of the three replicas have already answered its lookup when the
 /// call is made, so the call joins that still-active lookup.
 fn live(assign: &[usize; 3], order: usize, mode: usize, sync: bool, salted: bool, out: &mut Partial) {
@@ -254,7 +255,7 @@ fn live(assign: &[usize; 3], order: usize, mode: usize, sync: bool, salted: bool
         for e in net.eps.iter_mut() {
             e.store_puts = false;
         }
-        let own = dht::MutableItem::new(&sk, b"mine (older)", 0, salt);
+        let own = dht::MutableItem::new(&sk, b"mine (older)", -2, salt);
         let _ = w.call_put_mutable(a, own, None);
         // until `mode` of the three replicas' answers to the put's lookup have reached the node
         let mut arrived = 0;
@@ -314,7 +315,7 @@ fn live(assign: &[usize; 3], order: usize, mode: usize, sync: bool, salted: bool
     let mut held: Vec<(i64, Vec<u8>)> = assign.iter().filter_map(|a| VERSIONS[*a].map(|(s, v)| (s, v.to_vec()))).collect();
     if mode == 1 || mode == 2 {
         // the node's own in-flight item is an item it has seen
-        held.push((0, b"mine (older)".to_vec()));
+        held.push((-2, b"mine (older)".to_vec()));
     }
     let want = held.iter().map(|h| h.0).max().map(|m| (m, held.iter().filter(|h| h.0 == m).map(|h| h.1.clone()).max().expect("max")));
     let got = match w.result(call) {
